@@ -158,6 +158,30 @@ def emit_program(case):
             out.append("static_assert(std::is_same_v<mp::mp_at_c<the_product, "
                        "%d>, types<meth, %s>>, \"product order\");" % (
                            pos, ", ".join("K<%d>" % i for i in c)))
+    # apply_product / transform_product on small lists: the whole result,
+    # in order (templates outermost, rightmost list fastest)
+    srng = random.Random(case["subset_seed"] + 3)
+    small = [srng.randint(1, 3) for _ in range(srng.choice([1, 2, 2, 3]))]
+    slists = ", ".join("types<%s>" % ", ".join("K<%d>" % (i + 40 * d)
+                                               for i in range(n))
+                       for d, n in enumerate(small))
+    scombos = [", ".join("K<%d>" % (i + 40 * d) for d, i in enumerate(c))
+               for c in combos(small)]
+    out.append("template<typename...> struct TA; template<typename...> "
+               "struct TB;")
+    out.append("static_assert(std::is_same_v<apply_product<templates<TA, TB>, "
+               "%s>, types<%s>>, \"apply_product\");" % (
+                   slists, ", ".join(["TA<%s>" % c for c in scombos] +
+                                     ["TB<%s>" % c for c in scombos])))
+    out.append("template<typename... T> using both = types<TA<T...>, "
+               "TB<T...>>;")
+    out.append("static_assert(std::is_same_v<transform_product<both, %s>, "
+               "types<%s>>, \"transform_product\");" % (
+                   slists, ", ".join("TA<%s>, TB<%s>" % (c, c)
+                                     for c in scombos)))
+    out.append("static_assert(std::is_same_v<product<%s>, types<%s>>, "
+               "\"product\");" % (
+                   slists, ", ".join("types<%s>" % c for c in scombos)))
     out.append("use_definitions<definition, the_product> YOMM2_GENSYM;")
     out.append("struct NotImplemented {};")
     # expected table
